@@ -48,9 +48,9 @@ package epubdoc
 //@ func (*Reader) resolveHref results (res)
 //@   property C18
 //@   flags readonly
-//@   ensures percent_decoded_path: !url.PathUnescape$1(href) && len(r.baseDir) == 0 ==> sameseq(res, url.PathUnescape(href))
-//@   ensures relative_to_package: !url.PathUnescape$1(href) && len(r.baseDir) > 0 ==> sameseq(res, path.Join(r.baseDir, url.PathUnescape(href)))
-//@   ensures undecodable_kept: url.PathUnescape$1(href) && len(r.baseDir) == 0 ==> sameseq(res, href)
+//@   ensures percent_decoded_path: !url.PathUnescape$1(old(href)) && len(r.baseDir) == 0 ==> sameseq(res, url.PathUnescape(old(href)))
+//@   ensures relative_to_package: !url.PathUnescape$1(old(href)) && len(r.baseDir) > 0 ==> sameseq(res, path.Join(r.baseDir, url.PathUnescape(old(href))))
+//@   ensures undecodable_kept: url.PathUnescape$1(old(href)) && len(r.baseDir) == 0 ==> sameseq(res, old(href))
 
 // the spine is kept in declaration order, one item per itemref
 //@ func convertSpine results (spine)
